@@ -11,6 +11,9 @@ Streams
                 values) and build(match(url)) = url.
   converters    to_url / to_python / regex of single converters on canonical values (model: toUrl,
                 toPython, regexAccepts)
+  schedules     request threads doing the first build on a shared map while another thread is inside
+                Map.update() (forced interleavings, see harness/c03.py); the URL each thread built is then
+                matched and re-built; model: route.sched over the regenerated Map.update program
 """
 from __future__ import annotations
 
@@ -21,6 +24,10 @@ import uuid as uuidlib
 from urllib.parse import unquote
 
 from harness.c03 import (
+    ScheduleStream,
+    run_schedule,
+    schedule_shapes,
+    w_grants,
     canon_model_outcome,
     canon_value,
     canon_values,
@@ -36,6 +43,8 @@ from harness.c03 import (
     w_adapter,
     w_conv,
     w_map,
+    w_rule,
+    w_toks,
     w_opt,
     w_value,
     w_values,
@@ -44,6 +53,12 @@ from harness.pyprelude import PreludeKernels
 from vlib.core import Check, Stream, b01, hs, line
 
 TEXT_ALPHA = list("abcxyzABZ019") + ["é", "ü", "日", "😀", " ", ";", "?", "#", "%", "&", "=", "+", "@", ":", "!", "$", "'", "(", ")", "*", ",", "~", ".", "-", "_", "\\", '"', "<", ">", "|", "[", "]", "{", "}", "^", "`", "%41", "\t"]
+
+
+# path-converter values (canonical domain: multi-segment, not starting or ending with '/') whose interior is
+# easy to damage: runs of slashes, embedded URLs, dot segments, percent-escapes of '/'
+PATH_SPECIALS = ["x//y", "a///b", "http://example.com/a", "http://example.com/a b", "https://h//p?q#f", "a/./b", "a/../b", "../etc/passwd", ".", "..", ".hidden/x", "a//", "x/%2F/y", "a/%2e%2e/b", "Main//Sub page", "a//b//c", "é//ü"]
+PATH_SPECIALS = [p for p in PATH_SPECIALS if not p.startswith("/") and not p.endswith("/")]
 
 
 def rand_text(rng, n):
@@ -76,16 +91,43 @@ def canonical_value(rng, c):
         cands = [0.5, 1.5, 12.25, 100.0, 3.0, 0.125, 0.0, 2.0, 99999.5]
         if signed:
             cands += [-0.5, -12.25, -3.0]
+        if rng.random() < 0.5:
+            # floats at the precision boundary: shortest repr of 16 / 17 significant digits (results of
+            # arithmetic, thirds and sevenths, random 53-bit mantissas), large and small positional magnitudes
+            fam = rng.random()
+            if fam < 0.25:
+                x = rng.choice([0.1 + 0.2, 0.1 * 3, 1.1 + 2.2, 0.7 + 0.1, 1234.5678901234567, 2.675, 1e15 + 0.3, 0.1 + 0.7, 9007199254740991.0, 4503599627370497.5])
+            elif fam < 0.5:
+                x = rng.randint(1, 10**6) / rng.choice([3, 7, 9, 11, 13])
+            elif fam < 0.8:
+                x = (rng.getrandbits(53) | (1 << 52)) / float(1 << rng.randint(0, 64))
+            else:
+                x = rng.choice([0.0001, 0.00012345678901234567, 123456789012345.6, 1e15, 9999999999999998.0, 0.000123])
+            if signed and rng.random() < 0.4:
+                x = -x
+            if "e" not in repr(x) and "n" not in repr(x):
+                cands = [x]
         cands = [x for x in cands if (mn is None or x >= float(mn)) and (mx is None or x <= float(mx))] or [float(mn if mn is not None else mx)]
         return ["f", repr(rng.choice(cands))]
     if k == "a":
         return ["s", rng.choice(c[1:])]
     if k == "u":
         return ["u", str(uuidlib.UUID(int=rng.getrandbits(128)))]
+    r = rng.random()
+    if r < 0.12:
+        # embedded URLs and other values with empty interior segments (runs of slashes), dot segments
+        return ["s", rng.choice(PATH_SPECIALS)]
     segs = []
     for _ in range(rng.choice([1, 2, 2, 3])):
         n = rng.randint(1, 4)
         segs.append("".join(x[:1] if len(x) > 1 else x for x in [rng.choice(TEXT_ALPHA) for _ in range(n)]))
+    if r < 0.3 and len(segs) > 1:
+        # an empty interior segment: 'x//y', 'x///y'
+        i = rng.randrange(1, len(segs))
+        segs[i:i] = [""] * rng.choice([1, 1, 2])
+    elif r < 0.38:
+        i = rng.randrange(len(segs))
+        segs[i] = rng.choice([".", "..", ".hidden", "..."]) if len(segs) > 1 or True else segs[i]
     return ["s", "/".join(segs)]
 
 
@@ -159,6 +201,143 @@ def rule_vars(r):
     return [(t[2], t[1]) for t in r["toks"] if t != "/" and t[0] == "V"] + [(t[2], t[1]) for t in (r["dom"] or []) if t != "/" and t[0] == "V"]
 
 
+# ---- rule factories: case["factories"] = {idx: {"inner": rule, "wraps": [wrap, ...]}} (innermost first)
+#   wrap  ["M", toks] Submount | ["D", toks] Subdomain | ["E", text] EndpointPrefix | ["T", {name: text}] RuleTemplate
+# case["rules"][idx] is the rule the factories are expected to yield (used by the oracle only); the real side
+# builds the nested factory objects, the model side expands inner + wraps itself (Model/RoutingFactory.lean).
+
+
+def py_expand(inner, wraps, hm):
+    """harness-side expectation of factory.get_rules(): Rule.empty() keeps neither merge_slashes nor websocket,
+    RuleTemplateFactory additionally drops alias and host"""
+    from string import Template
+
+    r = json.loads(json.dumps(inner))
+    for w in wraps:
+        r["merge"], r["ws"] = None, False
+        if w[0] == "M":
+            path = list(w[1])
+            while path and path[-1] == "/":
+                path.pop()
+            r["toks"] = path + r["toks"]
+        elif w[0] == "D":
+            if not hm:
+                r["dom"] = w[1]
+        elif w[0] == "E":
+            r["endpoint"] = w[1] + r["endpoint"]
+        else:
+            ctx = w[1]
+            sub = lambda toks: [t if t == "/" or t[0] != "L" else ["L", Template(t[1]).substitute(ctx)] for t in toks]  # noqa: E731
+            r["toks"] = sub(r["toks"])
+            r["dom"] = None if (hm or r["dom"] is None) else sub(r["dom"])
+            r["endpoint"] = Template(r["endpoint"]).substitute(ctx)
+            r["defaults"] = {k: (["s", Template(v[1]).substitute(ctx)] if v[0] == "s" else v) for k, v in r["defaults"].items()}
+            r["alias"] = False
+    return r
+
+
+def w_wraps(wraps):
+    out = []
+    for w in wraps:
+        if w[0] in "MD":
+            out.append(w[0] + w_toks(w[1]))
+        elif w[0] == "E":
+            out.append("E" + hs(w[1]))
+        else:
+            out.append("T" + "&".join(hs(k) + "=" + hs(v) for k, v in w[1].items()))
+    return "+".join(out)
+
+
+def w_map04(case):
+    facs = case.get("factories") or {}
+    if not facs:
+        return w_map(case["cfg"], case["rules"])
+    cfg = case["cfg"]
+    c = b01(cfg["strict"]) + b01(cfg["merge"]) + b01(cfg["rd"]) + b01(cfg["hm"]) + "," + w_toks(cfg["dsub"])
+    parts = [c]
+    for i, r in enumerate(case["rules"]):
+        f = facs.get(str(i))
+        parts.append(w_rule(r) if f is None else w_rule(f["inner"]) + "|" + w_wraps(f["wraps"]))
+    return ";".join(parts)
+
+
+def decompose(rng, r, cfg):
+    """(inner rule, wraps, the rule the factories must yield) for an effective rule `r`"""
+    inner = json.loads(json.dumps(r))
+    wraps = []
+    # (RuleTemplateFactory does not hand on `host`: under host matching a templated rule is bound to no host)
+    kinds = rng.sample(["M", "E", "D"] + ([] if cfg["hm"] else ["T"]), rng.choice([1, 1, 2, 3]))
+    for k in kinds:
+        toks = inner["toks"]
+        if k == "M" and len(toks) > 3 and toks[0] == "/" and toks[1] != "/" and toks[1][0] == "L" and toks[2] == "/" and "$" not in toks[1][1]:
+            inner["toks"] = toks[2:]
+            wraps.insert(0, ["M", toks[:2] + (["/"] if rng.random() < 0.3 else [])])
+        elif k == "E" and len(inner["endpoint"]) > 1 and "$" not in inner["endpoint"]:
+            wraps.insert(0, ["E", inner["endpoint"][:1]])
+            inner["endpoint"] = inner["endpoint"][1:]
+        elif k == "D" and inner["dom"] is not None and not cfg["hm"]:
+            wraps.insert(0, ["D", inner["dom"]])
+            inner["dom"] = rng.choice([None, [["L", "other"]]])
+        elif k == "T":
+            texts = [t[1] for t in toks + (inner["dom"] or []) if t != "/" and t[0] == "L"] + [v[1] for v in inner["defaults"].values() if v[0] == "s"] + [inner["endpoint"]]
+            if any("$" in x for x in texts):
+                continue  # a stray '$' makes string.Template raise (in the real factory as well)
+            lits = [i for i, t in enumerate(toks) if t != "/" and t[0] == "L" and not (set(t[1]) & set("$/<>"))]
+            ctx = {}
+            if lits:
+                i = rng.choice(lits)
+                text = toks[i][1]
+                form = rng.random()
+                if form < 0.4:
+                    inner["toks"] = toks[:i] + [["L", "$seg"]] + toks[i + 1 :]
+                    ctx["seg"] = text
+                elif form < 0.8 and len(text) > 1:
+                    inner["toks"] = toks[:i] + [["L", text[0] + "${Seg_1}"]] + toks[i + 1 :]
+                    ctx["Seg_1"] = text[1:]
+                else:
+                    inner["toks"] = toks[:i] + [["L", "$seg$$"]] + toks[i + 1 :]
+                    ctx["seg"] = text
+            if rng.random() < 0.5 and "$" not in inner["endpoint"]:
+                ctx["ep"] = inner["endpoint"]
+                inner["endpoint"] = "${ep}"
+            if ctx:
+                wraps.insert(0, ["T", ctx])
+    if not wraps:
+        return None
+    if rng.random() < 0.4:
+        inner["merge"] = rng.random() < 0.5  # dropped by every factory
+    return inner, wraps, py_expand(inner, wraps, cfg["hm"])
+
+
+def real_factory(inner, wraps, cfg):
+    from werkzeug.routing import EndpointPrefix, Rule, RuleTemplate, Subdomain, Submount
+
+    kw = {}
+    if inner["dom"] is not None:
+        kw["host" if cfg["hm"] else "subdomain"] = rule_string(inner["dom"])
+    f = Rule(
+        rule_string(inner["toks"]),
+        endpoint=inner["endpoint"],
+        methods=inner["methods"],
+        strict_slashes=inner["strict"],
+        merge_slashes=inner["merge"],
+        defaults={k: py_value(v) for k, v in inner["defaults"].items()} or None,
+        alias=inner["alias"],
+        build_only=inner["bo"],
+        **kw,
+    )
+    for w in wraps:
+        if w[0] == "M":
+            f = Submount(rule_string(w[1]), [f])
+        elif w[0] == "D":
+            f = Subdomain(rule_string(w[1]), [f])
+        elif w[0] == "E":
+            f = EndpointPrefix(w[1], [f])
+        else:
+            f = RuleTemplate([f])(**w[1])
+    return f
+
+
 _MAP04: dict = {}
 
 
@@ -166,14 +345,18 @@ def real_map04(case):
     """werkzeug Map built through the factories the case names (Submount / Subdomain)"""
     from werkzeug.routing import Map, Rule, Subdomain, Submount
 
-    key = json.dumps([case["cfg"], case["rules"], case.get("mounts")], sort_keys=True)
+    key = json.dumps([case["cfg"], case["rules"], case.get("mounts"), case.get("factories")], sort_keys=True)
     hit = _MAP04.get(key)
     if hit is not None:
         return hit
     cfg = case["cfg"]
     items = []
     mounts = case.get("mounts") or {}
+    facs = case.get("factories") or {}
     for idx, r in enumerate(case["rules"]):
+        if str(idx) in facs:
+            items.append(real_factory(facs[str(idx)]["inner"], facs[str(idx)]["wraps"], cfg))
+            continue
         mt = mounts.get(str(idx))
         toks = r["toks"]
         kw = {}
@@ -246,8 +429,23 @@ class BuildMatchStream(Stream):
         {"cfg": mk_cfg(), "rules": [mk_rule(toks_of("/p/<string:s>/<path:rest>"), "p")], "mounts": {}, "adapter": mk_adapter(), "endpoint": "p", "values": {"s": ["s", "a b;?#%é"], "rest": ["s", "x/y z/%2F"]}, "extra": {}, "method": None, "fe": False},
         {"cfg": mk_cfg(), "rules": [mk_rule(toks_of("/n/<int(fixed_digits=3, signed=True):i>/<float(signed=True):f>"), "n")], "mounts": {}, "adapter": mk_adapter(), "endpoint": "n", "values": {"i": ["i", -5], "f": ["f", "-12.25"]}, "extra": {}, "method": None, "fe": False},
         {"cfg": mk_cfg(), "rules": [mk_rule(toks_of("/blog/entry/<slug>"), "blog/show", dom=[["L", "api"]])], "mounts": {"0": {"prefix": "/blog", "subdomain": True}}, "adapter": mk_adapter(sub=""), "endpoint": "blog/show", "values": {"slug": ["s", "hello world"]}, "extra": {}, "method": None, "fe": False},
+        # rule factories expanded by the model: EndpointPrefix(Submount(RuleTemplate(...))), a dropped merge_slashes=False
+        {"cfg": mk_cfg(), "rules": [mk_rule(toks_of("/blog/entry/<slug>"), "blog/show")], "mounts": {},
+         "factories": {"0": {"inner": mk_rule(toks_of("/$kind/<slug>"), "$ep", merge=False), "wraps": [["T", {"kind": "entry", "ep": "show"}], ["M", toks_of("/blog/")], ["E", "blog/"]]}},
+         "adapter": mk_adapter(), "endpoint": "blog/show", "values": {"slug": ["s", "hello world"]}, "extra": {}, "method": None, "fe": False},
+        {"cfg": mk_cfg(), "rules": [mk_rule(toks_of("/a$b/<int:n>"), "x", dom=[["L", "api"]])], "mounts": {},
+         "factories": {"0": {"inner": mk_rule(toks_of("/${A_1}$$b/<int:n>"), "x"), "wraps": [["T", {"A_1": "a"}], ["D", [["L", "api"]]]]}},
+         "adapter": mk_adapter(sub="api"), "endpoint": "x", "values": {"n": ["i", 7]}, "extra": {}, "method": None, "fe": True},
+        # path values with empty interior segments / embedded URLs (seeded change C04-c1: Rule.build collapsing '//')
+        {"cfg": mk_cfg(), "rules": [mk_rule(toks_of("/files/<path:name>"), "files"), mk_rule(toks_of("/wiki/<path:page>/edit"), "wiki")], "mounts": {}, "adapter": mk_adapter(), "endpoint": "files", "values": {"name": ["s", "x//y"]}, "extra": {}, "method": None, "fe": False},
+        {"cfg": mk_cfg(), "rules": [mk_rule(toks_of("/files/<path:name>"), "files"), mk_rule(toks_of("/wiki/<path:page>/edit"), "wiki")], "mounts": {}, "adapter": mk_adapter(script="/app"), "endpoint": "wiki", "values": {"page": ["s", "Main//Sub page"]}, "extra": {"q": ["s", "1"]}, "method": None, "fe": True},
+        {"cfg": mk_cfg(), "rules": [mk_rule(toks_of("/proxy/fetch/<path:target>"), "fetch")], "mounts": {"0": {"prefix": "/proxy"}}, "adapter": mk_adapter(script="/app/"), "endpoint": "fetch", "values": {"target": ["s", "http://example.com/a b"]}, "extra": {"q": ["s", "1"]}, "method": None, "fe": False},
+        {"cfg": mk_cfg(merge=False), "rules": [mk_rule(toks_of("/files/<path:name>"), "files")], "mounts": {}, "adapter": mk_adapter(), "endpoint": "files", "values": {"name": ["s", "a///b/../c"]}, "extra": {}, "method": None, "fe": False},
         # F04b (known finding): the rebuilt URL is the rule's with more arguments
         {"cfg": mk_cfg(rd=False), "rules": [mk_rule(toks_of("/x"), "e", defaults={"page": ["i", 1]}), mk_rule(toks_of("/y/<int:page>"), "e", defaults={"lang": ["s", "en"]})], "mounts": {}, "adapter": mk_adapter(), "endpoint": "e", "values": {}, "extra": {}, "method": None, "fe": False},
+        # F04c (known finding): crossed variable / default arguments - the built URL is answered with a defaults redirect
+        {"cfg": mk_cfg(), "rules": [mk_rule(toks_of("/a/<int:x>/"), "e", defaults={"y": ["i", 1]}), mk_rule(toks_of("/b/<int:y>"), "e", defaults={"x": ["i", 2]})], "mounts": {}, "adapter": mk_adapter(), "endpoint": "e", "values": {"y": ["i", 1]}, "extra": {}, "method": None, "fe": False},
+        {"cfg": mk_cfg(), "rules": [mk_rule(toks_of("/a/<int:x>/"), "e", defaults={"y": ["i", 1]}), mk_rule(toks_of("/b/<int:y>"), "e", defaults={"x": ["i", 2]})], "mounts": {}, "adapter": mk_adapter(), "endpoint": "e", "values": {"y": ["i", 5]}, "extra": {}, "method": None, "fe": False},
         # F04a regressions (repaired: AnyConverter.to_url quotes the item)
         {"cfg": mk_cfg(), "rules": [mk_rule(["/", ["L", "x"], "/", ["V", ["a", "a?b", "ok"], "v"]], "e")], "mounts": {}, "adapter": mk_adapter(), "endpoint": "e", "values": {"v": ["s", "a?b"]}, "extra": {}, "method": None, "fe": False},
         {"cfg": mk_cfg(), "rules": [mk_rule(["/", ["L", "x"], "/", ["V", ["a", "x#y", "%41", "a b", "é"], "v"], "/"], "e")], "mounts": {}, "adapter": mk_adapter(script="/app"), "endpoint": "e", "values": {"v": ["s", "%41"]}, "extra": {"q": ["s", "1"]}, "method": None, "fe": True},
@@ -298,6 +496,19 @@ class BuildMatchStream(Stream):
                             # the defaults rule carries an extra default-only argument
                             sib["defaults"][rng.choice(["lang", "fmt"])] = rng.choice([["s", "en"], ["i", 0]])
                         rules.append(sib)
+            factories = {}
+            for k in range(len(rules)):
+                if str(k) not in mounts and rng.random() < 0.15:
+                    d = decompose(rng, rules[k], cfg)
+                    if d is not None:
+                        factories[str(k)] = {"inner": d[0], "wraps": d[1]}
+                        rules[k] = d[2]
+            if rng.random() < 0.04 and not hm:
+                # F04c family: two rules of one endpoint with crossed variable / default arguments
+                k = len(rules)
+                va, vb = rng.choice([0, 1, 2, 7]), rng.choice([0, 1, 2, 7])
+                rules.append(mk_rule(["/", ["L", "ca"], "/", ["V", ["i", 0, False, None, None], "x"], "/"], endpoint=f"c{k}", defaults={"y": ["i", va]}))
+                rules.append(mk_rule(["/", ["L", "cb"], "/", ["V", ["i", 0, False, None, None], "y"]], endpoint=f"c{k}", defaults={"x": ["i", vb]}))
             target = rng.choice(rules)
             values = {}
             for name, c in rule_vars(target):
@@ -321,7 +532,7 @@ class BuildMatchStream(Stream):
                 scheme=rng.choice(["http", "https"]),
                 dm=rng.choice(["GET", "GET", "POST"]),
             )
-            yield {"cfg": cfg, "rules": rules, "mounts": mounts, "adapter": adapter, "endpoint": target["endpoint"], "values": values, "extra": extra, "method": rng.choice([None, None] + (target["methods"] or ["GET", "POST"])), "fe": rng.random() < 0.3}
+            yield {"cfg": cfg, "rules": rules, "mounts": mounts, "factories": factories, "adapter": adapter, "endpoint": target["endpoint"], "values": values, "extra": extra, "method": rng.choice([None, None] + (target["methods"] or ["GET", "POST"])), "fe": rng.random() < 0.3}
 
     # ---- real ------------------------------------------------------------------------------------
 
@@ -385,7 +596,7 @@ class BuildMatchStream(Stream):
 
     def model_line(self, case):
         vals = {**case["values"], **case["extra"]}
-        return line("route.roundtrip", w_map(case["cfg"], case["rules"]), w_adapter(case["adapter"]), hs(case["endpoint"]), w_values(vals), w_opt(hs, case["method"]), w_opt(hs, self.match_method(case)), b01(case["fe"]))
+        return line("route.roundtrip", w_map04(case), w_adapter(case["adapter"]), hs(case["endpoint"]), w_values(vals), w_opt(hs, case["method"]), w_opt(hs, self.match_method(case)), b01(case["fe"]))
 
     def canon_model(self, case, out):
         parts = out.split(" ; ")
@@ -433,7 +644,77 @@ class BuildMatchStream(Stream):
             args = {json.dumps(sorted({n for n, _ in rule_vars(r)} | set(r["defaults"]))) for r in case["rules"] if r["endpoint"] == case["endpoint"]}
             if len(args) > 1:
                 return "F04b"
+        # F04c: two rules of the endpoint with EQUAL argument sets and crossed variable / default arguments:
+        # the built URL is answered with the defaults redirect to the sibling's URL, which denotes the same
+        # endpoint and arguments. Only that shape: the redirect target is followed here and must match to
+        # the endpoint with exactly the built values plus defaults.
+        if what.startswith("match(unquote(build(...))) of") and " is R, " in what and self.crossed_defaults(case):
+            if self.redirect_lands_on_same(case):
+                return "F04c"
+        # ... its other face (redirect_defaults off): the URL rebuilt from the match result is the sibling's URL
+        # for the same arguments - both URLs must match to the same endpoint and values
+        if what.startswith("build(match(url)) =") and self.crossed_defaults(case) and self.rebuilt_denotes_same(case):
+            return "F04c"
         return None
+
+    def rebuilt_denotes_same(self, case):
+        u, o, u2 = self.run_real(case)
+        if o is None or not o.startswith("M ") or u2 is None or not u2.startswith("U "):
+            return False
+        m = real_map04(case)
+        cfg, a = case["cfg"], case["adapter"]
+        rb = read_built(cfg, a, bytes.fromhex(u2[2:]).decode())
+        if rb is None:
+            return False
+        a2, path_info = rb
+        out = real_match(real_adapter(m, cfg, a2), self.rule_order(m, case), path_info, self.match_method(case))
+        return out.startswith("M ") and out.split(" ")[2:] == o.split(" ")[2:]
+
+    @staticmethod
+    def crossed_defaults(case):
+        rs = [r for r in case["rules"] if r["endpoint"] == case["endpoint"] and not r["alias"]]
+
+        def args(r):
+            return {n for n, _ in rule_vars(r)} | set(r["defaults"])
+
+        for a in rs:
+            for b in rs:
+                if a is not b and args(a) == args(b) and (set(a["defaults"]) & {n for n, _ in rule_vars(b)}) and (set(b["defaults"]) & {n for n, _ in rule_vars(a)}):
+                    return True
+        return False
+
+    def redirect_lands_on_same(self, case):
+        """follow the redirect the built URL was answered with: does it match the endpoint with the built
+        values (+ defaults)?"""
+        u, o, _ = self.run_real(case)
+        if o is None or not o.startswith("R "):
+            return False
+        m = real_map04(case)
+        cfg, a = case["cfg"], case["adapter"]
+        rb = read_built(cfg, a, bytes.fromhex(o[2:]).decode())
+        if rb is None:
+            return False
+        a2, path_info = rb
+        out = real_match(real_adapter(m, cfg, a2), self.rule_order(m, case), path_info, self.match_method(case))
+        if not out.startswith("M "):
+            return False
+        _, idx, ep, vals = out.split(" ")
+        rule = case["rules"][int(idx)]
+        want = {k: py_value(v) for k, v in case["values"].items()}
+        have = dict(want)
+        for k, v in rule["defaults"].items():
+            have.setdefault(k, py_value(v))
+        argset = {n for n, _ in rule_vars(rule)} | set(rule["defaults"])
+        # every given value must be carried; arguments not given are some rule's defaults
+        got = vals
+        exp_keys = argset
+        if bytes.fromhex(ep).decode() != case["endpoint"]:
+            return False
+        parsed = dict(kv.split("=") for kv in got.split(",")) if got != "[]" else {}
+        for k, v in want.items():
+            if k in argset and parsed.get(hs(k)) != canon_value(v):
+                return False
+        return set(parsed) == {hs(k) for k in exp_keys}
 
     def nontrivial(self, case, real_out):
         return " ; M " in real_out
@@ -460,12 +741,21 @@ class ConvStream(Stream):
         {"conv": ["i", 3, True, None, None], "value": ["i", -5]},
         {"conv": ["i", 0, False, None, None], "value": ["i", 0]},
         {"conv": ["f", True, None, None], "value": ["f", "-0.5"]},
+        # floats whose shortest repr needs 16 / 17 significant digits (seeded change C04-d2: to_url rounding to 15)
+        {"conv": ["f", False, None, None], "value": ["f", "0.30000000000000004"]},
+        {"conv": ["f", False, None, None], "value": ["f", "1234.5678901234567"]},
+        {"conv": ["f", True, None, None], "value": ["f", "-0.3333333333333333"]},
+        {"conv": ["f", False, None, None], "value": ["f", "9007199254740991.0"]},
+        {"conv": ["f", False, None, None], "value": ["f", "0.0001"]},
         {"conv": ["a", "a", "x y", "é"], "value": ["s", "x y"]},
         {"conv": ["a", "%41", "a?b", "x#y", "50%25"], "value": ["s", "%41"]},
         {"conv": ["a", "%41", "a?b", "x#y", "50%25"], "value": ["s", "a?b"]},
         {"conv": ["a", "%41", "a?b", "x#y", "50%25"], "value": ["s", "50%25"]},
         {"conv": ["u"], "value": ["u", "12345678-1234-5678-1234-567812345678"]},
         {"conv": ["p"], "value": ["s", "a/b c/%41"]},
+        {"conv": ["p"], "value": ["s", "x//y"]},
+        {"conv": ["p"], "value": ["s", "http://example.com/a b"]},
+        {"conv": ["p"], "value": ["s", "../a/./b"]},
     ]
 
     def cases(self, rng, tier):
@@ -514,19 +804,145 @@ class ConvStream(Stream):
         return case["conv"][0]
 
 
+class BuildScheduleStream(ScheduleStream):
+    """C04 over thread schedules: request threads doing the first build on a shared map while another
+    thread is inside Map.update() (every pre-emption point), on endpoints whose defaults rule / rule with
+    more arguments is NOT declared first - so that MapAdapter.build depends on the build_compare_key sort
+    of `_rules_by_endpoint`. The built URL is then matched and re-built single-threaded.
+    Oracle: the build-match oracle of this property on every thread's URL."""
+
+    name = "schedules"
+    SHAPES = [
+        # (rules, endpoint, values): the rule that must be selected is declared last
+        ([("/users/page/<int:page>", "users", {}), ("/users/", "users", {"page": ["i", 1]})], "users", {"page": ["i", 1]}),
+        ([("/a/<string:x>", "e", {}), ("/b/<string:x>/<int:y>", "e", {})], "e", {"x": ["s", "k"], "y": ["i", 3]}),
+        ([("/list/<int:page>", "l", {}), ("/list", "l", {"page": ["i", 0]})], "l", {"page": ["i", 0]}),
+        ([("/p/<path:q>", "p", {}), ("/p", "p", {"q": ["s", "index"]})], "p", {"q": ["s", "index"]}),
+    ]
+    corpus = [
+        # seeded change C04-c2: thread 0 pre-empted inside the endpoint sort (5 stops), thread 1 builds meanwhile
+        {"cfg": mk_cfg(), "rules": [mk_rule(toks_of("/slow/<int:a>"), "slow"), mk_rule(toks_of("/users/page/<int:page>"), "users"), mk_rule(toks_of("/users/"), "users", defaults={"page": ["i", 1]})], "adapter": mk_adapter(),
+         "acts": [["B", "slow", {"a": ["i", 1]}, None, False], ["B", "users", {"page": ["i", 1]}, None, False]], "grants": [0] * 5 + [1] * 10 + [0] * 10 + [1] * 10},
+        {"cfg": mk_cfg(), "rules": [mk_rule(toks_of("/slow/<int:a>"), "slow"), mk_rule(toks_of("/users/page/<int:page>"), "users"), mk_rule(toks_of("/users/"), "users", defaults={"page": ["i", 1]})], "adapter": mk_adapter(script="/app"),
+         "acts": [["B", "slow", {"a": ["i", 1]}, None, True], ["B", "users", {"page": ["i", 1]}, None, True]], "grants": [0] * 4 + [1] * 10 + [0] * 10 + [1] * 10},
+    ]
+
+    def cases(self, rng, tier):
+        n = 0
+        limit = 200 if tier == "quick" else 3000
+        while n < limit:
+            shape, ep, vals = rng.choice(self.SHAPES)
+            rules = [mk_rule(toks_of(t), e, defaults=d) for t, e, d in shape]
+            if rng.random() < 0.5:
+                rules = [mk_rule(toks_of("/other/<int:a>"), "other")] + rules
+            cfg = mk_cfg(strict=rng.random() < 0.8, merge=rng.random() < 0.8, rd=rng.random() < 0.8)
+            adapter = mk_adapter(script=rng.choice(["/", "/app", "/app/"]), scheme=rng.choice(["http", "https"]))
+            nreq = rng.choice([2, 2, 3])
+            fe = rng.random() < 0.3
+            acts = [["B", ep, vals, None, fe] for _ in range(nreq)]
+            with_add = rng.random() < 0.3
+            if with_add:
+                acts = [["A", 2]] + acts
+                shapes = schedule_shapes(rng, nreq, 1, (2,))
+            else:
+                shapes = schedule_shapes(rng, nreq)
+            for g in shapes:
+                n += 1
+                yield {"cfg": cfg, "rules": rules, "adapter": adapter, "acts": acts, "grants": g}
+
+    def real(self, case):
+        holder = {}
+
+        def mk(m, robjs, a):
+            holder["m"], holder["robjs"] = m, robjs
+
+            def go():
+                ad = real_adapter(m, case["cfg"], case["adapter"])
+                return "U " + hs(ad.build(a[1], typed_values(a[2]), method=a[3], force_external=a[4]))
+
+            return go
+
+        ev, res, fin = run_schedule(case, mk)
+        outs = []
+        for a, r in zip(case["acts"], res):
+            if a[0] == "A":
+                outs.append("A")
+            else:
+                outs.append(self.finish_roundtrip(holder["m"], holder["robjs"], case, a, r))
+        return f"{','.join(ev) if ev else '[]'} ; {'|'.join(outs)} ; {b01(fin)}"
+
+    @staticmethod
+    def finish_roundtrip(m, robjs, case, a, u):
+        """single-threaded, after the schedule: match the URL a thread built and build again"""
+        if u is None:
+            return "~"
+        if not u.startswith("U "):
+            return f"{u} / ~ / ~"
+        cfg, ad0 = case["cfg"], case["adapter"]
+        url = bytes.fromhex(u[2:]).decode()
+        rb = read_built(cfg, ad0, url)
+        if rb is None:
+            return f"{u} / ~ / ~"
+        a2, path_info = rb
+        adm = real_adapter(m, cfg, a2)
+        out = real_match(adm, robjs, path_info, a[3])
+        u2 = "~"
+        if out.startswith("M "):
+            try:
+                rule, mv = adm.match(path_info, a[3], return_rule=True)
+                u2 = "U " + hs(real_adapter(m, cfg, ad0).build(rule.endpoint, dict(mv), method=a[3], force_external=a[4]))
+            except Exception as e:  # noqa: BLE001
+                u2 = "EXC:" + type(e).__name__
+        return f"{u} / {out} / {u2}"
+
+    def model_line(self, case):
+        acts = "!".join(f"A{a[1]}" if a[0] == "A" else "B" + ":".join([hs(a[1]), w_values(a[2]), w_opt(hs, a[3]), w_opt(hs, a[3]), b01(a[4])]) for a in case["acts"])
+        return line("route.sched", w_map(case["cfg"], case["rules"]), w_adapter(case["adapter"]), acts, w_grants(case["grants"]))
+
+    def canon_model(self, case, out):
+        parts = out.split(" ; ")
+        if len(parts) == 3:
+            fixed = []
+            for o in parts[1].split("|"):
+                t = o.split(" / ")
+                if len(t) == 3:
+                    t[1] = canon_model_outcome(t[1])
+                fixed.append(" / ".join(t))
+            parts[1] = "|".join(fixed)
+        return " ; ".join(parts)
+
+    def oracle(self, case, real_out):
+        if real_out.startswith("EXC"):
+            return "forced schedule raised " + real_out
+        _, res, _ = real_out.split(" ; ")
+        bm = BuildMatchStream()
+        for a, out in zip(case["acts"], res.split("|")):
+            if a[0] == "A" or out == "~":
+                continue
+            sub = {"cfg": case["cfg"], "rules": case["rules"], "mounts": {}, "adapter": case["adapter"], "endpoint": a[1], "values": a[2], "extra": {}, "method": a[3], "fe": a[4]}
+            what = bm.oracle(sub, out.replace(" / ", " ; "))
+            if what is not None and bm.finding_key(sub, what) is None:
+                return f"build({a[1]!r}) while another thread was inside Map.update(): {what}"
+        return None
+
+
 CHECK = Check(
     prop="C04",
-    gen=["Routing", "RoutingSamples", "PyFns_Routing"],
-    modules=["WzVerif.Props.C04", "WzVerif.Props.C04T"],
-    streams=[BuildMatchStream(), ConvStream(), PreludeKernels()],
+    gen=["Routing", "RoutingSamples", "PyFns_Routing", "RoutingLock", "RoutingGlue"],
+    modules=["WzVerif.Props.C04", "WzVerif.Props.C04T", "WzVerif.Props.C03L"],
+    streams=[BuildMatchStream(), ConvStream(), PreludeKernels(), BuildScheduleStream()],
     assumptions=[
+        "round 3: BaseConverter.to_python / to_url (str values; urllib's quote = the routing model's quote, the safe= literal pinned against pathSafe), UnicodeConverter.__init__ (the regex text), AnyConverter.__init__ / to_url (re.escape = the model's reEscape over the regenerated special set; set(items) as a duplicate-free list), NumberConverter.__init__ and the signed_regex property are regenerated from the source as well (Gen/PyFns_Routing.lean) and proved equal to the converter model (Conv.regexText, toPython, toUrl) for all inputs (Props/C04T, proofs in Lemmas/PyFnsEq_Conv.lean)",
         "NumberConverter.to_python / to_url are regenerated from the source by tools/py2lean.py (Gen/PyFns_Routing.lean) on every run and proved equal to the int converter of the hand model for all inputs (Props/C04T; num_convert = int enters to_python as the model's intOfText, to_url is restricted to int values); the CPython primitives the translated code calls (str(int), zfill) are modelled in Util/PyPrelude.lean and validated by stream prelude-kernels",
         "model scope: MapAdapter.build for the default converters incl. rule defaults, methods, subdomain / host_matching, script root, force_external, unknown values as query; MultiDict / list values, sort_parameters, url_scheme overrides and websocket rules are not modelled; Submount / Subdomain factories are exercised on the real side and compared with the expanded rules on the model side",
         "urllib.parse.quote / quote_plus / urlencode / unquote are hand-modelled and validated by the streams (built URLs are compared character for character); the safe= literals are collected from the source by AST (quote_safe_sets_match_source)",
         "a server's view of a built URL: scheme/host select the adapter (subdomain or host), the script root is stripped, the path is cut at '?' / '#' and percent-decoded (errors='replace')",
-        "floats are positional decimal text in Python's canonical spelling (repr): str(float) and float(text) are Python's and only correspondence-tested; int() / str(int) are modelled by Lean's decimal printer and the generated digit table (proved inverse)",
+        "floats are positional decimal text in Python's canonical spelling (repr): str(float) and float(text) are Python's and only correspondence-tested; int() / str(int) are modelled by Lean's decimal printer and the generated digit table (proved inverse). The canonical float domain is the property's: floats whose str() is positional (1e-4 <= |x| < 1e16, or 0) - a float whose str() is exponent notation ('1e-05', '1e+16') builds a URL the converter's own regex \\d+\\.\\d+ does not accept (unchanged code; outside 'values its converters accept' as the quantifier spells it out, never generated). Inside the domain the generators draw from the precision boundary: shortest reprs of 16 / 17 significant digits (0.1 + 0.2, n/3, n/7, random 53-bit mantissas, magnitudes near 1e15 and 1e-4); the oracle compares the float after the round trip with ==",
         "converse law is checked as build(match(build(endpoint, values))) = build(endpoint, values): a URL that is not in built form ('/007' for <int>) matches but rebuilds canonically ('/7'), by design",
         "negative min / max cannot be written in a rule string (werkzeug's converter-argument grammar has no sign), so signed converters are exercised with non-negative bounds",
+        "Map.update / Map.add protocol (Props/C03L, shared by C03 / C04 / C12): the statement order of both functions is regenerated from map.py by AST (Gen/RoutingLock; an unknown statement becomes `.other` and breaks the discipline obligations); the interleaving semantics is a model: each statement is atomic except the two sorts, which pass through an unsorted state (list.sort empties the list while it runs); rules are abstract ids and sortedness w.r.t. a set of rules is the only property of the structures that is kept; threads / the GIL / Lock are Python's (modelled, validated by stream schedules: the real code is stepped through the same grant lists via Map.lock_class, a Map subclass with a `_remap` property, wrapped _matcher.update / add and a Rule subclass whose build_compare_key stops inside the endpoint sort). update_passes_sorted assumes add() threads do not move while the lock is held (necessary on the unchanged code: add_during_update_loses_flag - Map.add concurrent with request handling is outside the documented use)",
+        "rule factories: Submount / Subdomain / EndpointPrefix / RuleTemplate are expanded by the model (Model/RoutingFactory.lean: the driver receives the inner rule + its factories, the real side builds the nested factory objects); the copies follow the code: Rule.empty() hands on neither merge_slashes nor websocket, RuleTemplateFactory additionally drops alias and host (observed defects outside the property text; witnesses factory_copy_drops_merge_and_websocket, template_expansion). string.Template is modelled for $name / ${name} / $$ with ASCII identifiers; templates are generated without stray '$' and not under host matching",
+        "known finding F04c: two rules of one endpoint with equal argument sets and crossed variable / default arguments: build() takes the only rule suitable for the given values, match() then regards the sibling as canonical and answers with the defaults redirect (witness match_build_crossed_defaults_false; with redirect_defaults off the rebuilt URL is the sibling's). finding_key follows the redirect / rebuilt URL and accepts only targets that denote the same endpoint and values",
         "known finding F04b: build() prefers the rule with more arguments, so build(match(url)) can be another rule's URL when the endpoint's rules have unequal argument sets (witness build_match_fixpoint_map_level_false); defaults siblings are generated with equal and with unequal argument sets, with shared and with their own literal first segment",
         "F04a (AnyConverter.to_url returned the item unquoted) is repaired in /repo (3fc8bd3): the model quotes any-items with the BaseConverter safe set, toPython_toUrl_any is full strength, the former failing inputs are corpus regressions of both streams",
         "match_build is proved at rule level (rule_build_match_partial: every rule of the grammar without subdomain rule; the rule's own parts admit what it builds, groups = decoded converter outputs) and at map level on the decoded path (match_build_partial: on a map where no other rule admits the path - e.g. distinct literal first segments, walkVia_none_of_first_literal - the matcher returns that rule with exactly the built values plus defaults; build_selects_suitable_rule: MapAdapter.build takes the URL of a suitable rule of the endpoint); the same on the full URL text MapAdapter.build returns - relative or external, with or without query - read back the way a server does (match_build_url_partial; subdomain maps, no host_matching); build_match_fixpoint is proved for the selected rule (build_match_fixpoint_partial). That build selects the same rule again for the matched values is false in general (F04b; also two rules of one endpoint with crossed variable/default arguments give two URLs for the same arguments) and is validated by the stream on the generated shapes only",
@@ -537,8 +953,8 @@ CHECK = Check(
 )
 
 MANIFEST = {
-    "level_text": "Machine-checked Lean 4 theorems about the model of URL building: percent-decoding undoes the builder's quoting for every text (unquote_quote: decide over all 256 bytes lifted to all strings by induction, UTF-8 round trip from Lean core), and to_python(unquote(to_url(v))) = v for every converter on its canonical domain - strings and paths (all text), ints incl. signed and zero-padded fixed_digits with min/max (decimal printing and reading proved inverse over the generated Unicode digit table), uuid, any, floats as canonical decimal text; and at rule level the rule's own compiled parts directly admit the percent-decoded path the rule builds, extracting exactly the decoded converter outputs (rule_build_match_partial: isolating converters and one path converter). The map-level build/match laws are validated by a differential stream over non-overlapping maps (model vs real code, character for character) with the property oracle on the real code.",
-    "level_note": "Trusted: Lean kernel; extract.py; harness; CPython urllib.parse/int/float/uuid (modelled, stream-validated). Partial: match_build is proved per converter, per rule and at map level on the decoded path for non-overlapping maps; build_match_fixpoint for the selected rule; re-selection of the rule for the converse law is stream-validated only (false in general: F04b); float <-> text is Python's. Known finding F04b.",
+    "level_text": "Machine-checked Lean 4 theorems about the model of URL building: percent-decoding undoes the builder's quoting for every text (unquote_quote: decide over all 256 bytes lifted to all strings by induction, UTF-8 round trip from Lean core), and to_python(unquote(to_url(v))) = v for every converter on its canonical domain - strings and paths (all text), ints incl. signed and zero-padded fixed_digits with min/max (decimal printing and reading proved inverse over the generated Unicode digit table), uuid, any, floats as canonical decimal text; and at rule level the rule's own compiled parts directly admit the percent-decoded path the rule builds, extracting exactly the decoded converter outputs (rule_build_match_partial: isolating converters and one path converter). The map-level build/match laws are validated by a differential stream over non-overlapping maps (model vs real code, character for character) with the property oracle on the real code. Round 3: the law on whole URLs at the level of MapAdapter.match (match_build_adapter_partial; proviso get_default_redirect finds nothing, necessary: F04c), rule factories (Submount / Subdomain / EndpointPrefix / RuleTemplate expansion in the model, commutation with compiling, matching, building), the Map.update protocol theorems (Props/C03L) and forced-schedule builds, and pins of Rule.build, build_compare_key / suitable_for / provides_defaults_for and the converter class table.",
+    "level_note": "Trusted: Lean kernel; extract.py; harness; CPython urllib.parse/int/float/uuid (modelled, stream-validated). Partial: match_build is proved per converter, per rule and at map level on the decoded path for non-overlapping maps; build_match_fixpoint for the selected rule; re-selection of the rule for the converse law is stream-validated only (false in general: F04b); float <-> text is Python's. Known findings F04b, F04c.",
     "technique": "Lean 4 proof (decide +kernel over all bytes, induction over byte/digit lists, core UTF-8 and Nat.toDigits lemmas) + model/code correspondence",
     "design_ref": "DESIGN.md section 4, C04",
 }
